@@ -79,6 +79,11 @@ class Classifier:
                     lv = self.leaves(cb, fd, c, (bb, j))
                     if not any(k == "call" and n in MASK for k, n in lv):
                         ok = False
+        if not found:
+            # `|| -> Result<Node> { g.prf(..) }`: the return place is defined by the call itself
+            rets = [(fd.defs[i][1]) for i in fd.defs_of.get(0, []) if fd.defs[i][2] is None and fd.defs[i][1] >= 0]
+            if rets and all((callee_name(cb.term(r)) or "") in MASK for r in rets):
+                ok, found = True, True
         self.closure_masked[cb.id] = ok and found
         return ok and found
 
@@ -90,6 +95,38 @@ class Classifier:
         if any(k == "call" and n.endswith("generate_prf_key_triple") for k, n in lv):
             return "K"
         return "B"
+
+
+def _classify_per_call_site(facts, cl, cb, lv):
+    """a message built inside a local closure from the closure's parameters (`mask_and_send(value, &mask)`): the class is
+    decided at every call site with the arguments substituted; all sites must be masked"""
+    parent = facts.bodies.get(cb.root or "")
+    if parent is None:
+        return cl.classify(lv)
+    pfd = cl.flow(parent)
+    sites = [(bb, t) for bb, t in parent.calls() if callee_name(t) == cb.id and not parent.is_cleanup(bb)]
+    if not sites:
+        return cl.classify(lv)
+    base = {x for x in lv if x[0] != "param"}
+    params = sorted(x[1] for x in lv if x[0] == "param")
+    classes = []
+    for bb, t in sites:
+        elems = None
+        if len(t["args"]) == 2 and t["args"][1][0] != "k":
+            for di in pfd.defs_of.get(t["args"][1][1][0], []):
+                _, db, dj = pfd.defs[di]
+                if db >= 0 and dj is not None:
+                    rv = parent.stmts(db)[dj][2]
+                    if rv[0] == "agg" and rv[1].get("k") == "tuple":
+                        elems = (rv[2], (db, dj))
+        if elems is None:
+            return "B"
+        site_lv = set(base)
+        for l in params:
+            if l - 2 < len(elems[0]):
+                site_lv |= cl.leaves(parent, pfd, elems[0][l - 2], elems[1])
+        classes.append(cl.classify(site_lv))
+    return "A" if all(c == "A" for c in classes) else classes[0] if len(set(classes)) == 1 else "B"
 
 
 def run(facts, rep, tier):
@@ -118,6 +155,8 @@ def run(facts, rep, tier):
             lv = cl.leaves(b, fd, pay, (nb, None)) if pay is not None else set()
             # a nop created by a wrapper: the wrapper forwards its Node argument
             c = cl.classify(lv)
+            if c != "A" and b.kind == "closure" and any(k_ == "param" for k_, _ in lv):
+                c = _classify_per_call_site(facts, cl, b, lv)
             n += 1
             table["%s#%d" % (name, k)] = {"class": c, "leaves": sorted(set(x[1].split("::")[-1] if isinstance(x[1], str) else str(x[1]) for x in lv))}
             if req:
@@ -364,62 +403,80 @@ class _Relabel:
 
 
 def reveal(facts, rep):
-    b = facts.body("mpc::mpc_compiler::reveal_output")
-    if not rep.anchor("C03.R", "mpc::mpc_compiler::reveal_output", b):
+    root = facts.body("mpc::mpc_compiler::reveal_output")
+    if not rep.anchor("C03.R", "mpc::mpc_compiler::reveal_output", root):
         return
-    fl = Flow(facts, b, C02.EXTRA)
-    sites = C02.send_sites(facts, b, fl)
-    rep.floor("C03.R", "Send sites in reveal_output", len(sites), 2)
-    outp = None
-    for l in range(1, b.argc + 1):
-        if "IOStatus" in b.local_ty(l):
-            outp = l
-    if not rep.anchor("C03.R", "output_parties parameter", outp):
-        return
-    # (1) empty list -> nothing sent
-    empties = [bb for bb, t in b.calls() if (callee_name(t) or "").endswith("::is_empty") and not b.is_cleanup(bb)
-               and any(o[0] == "param" and o[1] == outp for o in fl.origins(t["args"][0], (bb, None)))]
-    if rep.anchor("C03.R", "output_parties.is_empty() test", empties):
-        res = V.executable_under(facts, b, site_values={(b.id, e): ("b", True) for e in empties})
-        live = [bb for bb, _, _ in sites if bb in res.blocks]
-        rep.ob("C03.R", "no-party-no-send", not live,
-               "with an empty output-party list no Send annotation is reachable (the result stays shared)", b.loc(empties[0]))
-    # receivers
-    contains = [bb for bb, t in b.calls() if (callee_name(t) or "").endswith("::contains") and not b.is_cleanup(bb)
-                and any(o[0] == "param" and o[1] == outp for o in fl.origins(t["args"][0], (bb, None)))]
-    loops = C.loops(b)
-    for k, (bb, recv, aggs) in enumerate(sites):
-        agg = aggs[0]
-        rv = b.stmts(agg[1])[agg[2]][2]
-        r_op = rv[2][1]
-        deps = fl.leaf_deps(r_op, (agg[1], agg[2]))
-        pd = {d for d in deps if d[0] != "const"}
-        from_outp = bool(pd) and all(d[0] == "param" and d[1] == outp or d[0] in ("index",) for d in pd)
-        guarded = False
-        if contains:
-            res = V.executable_under(facts, b, site_values={(b.id, c): ("b", False) for c in contains})
-            guarded = bb not in res.blocks
-        in_loop = any(bb in blocks for _, blocks in loops if any(c in blocks for c in contains)) if contains else False
-        if guarded:
-            # the membership test is about the value that becomes the receiver
-            same = False
-            for c in contains:
-                a = b.term(c)["args"][1]
-                cd = {d for d in fl.leaf_deps(a, (c, None)) if d[0] not in ("const", "agg")}
-                if cd and cd == {d for d in pd}:
-                    same = True
-                # aggregate IOStatus::Party(x): compare x
-                for o in fl.origins(a, (c, None)):
-                    if o[0] == "agg" and o[3].endswith("IOStatus::Party"):
-                        x = b.stmts(o[1])[o[2]][2][2][0]
-                        xd = {d for d in fl.leaf_deps(x, (o[1], o[2])) if d[0] != "const"}
-                        if xd == pd:
-                            same = True
-            rep.ob("C03.R", "send#%d|guarded-by-membership" % k, same,
-                   "this Send is unreachable unless output_parties.contains(Party(x)) holds, and x is the receiver of the Send"
-                   if same else "the membership test is not about the party that receives the value", b.loc(bb))
-        else:
-            rep.ob("C03.R", "send#%d|receiver-from-output-parties" % k, from_outp,
-                   "the receiver of this Send derives only from output_parties (%s)" % sorted(map(str, pd)) if from_outp else
-                   "a value is sent to a party that does not come from output_parties (%s) and the Send is not guarded by a "
-                   "membership test: a non-recipient learns the output" % sorted(map(str, pd)), b.loc(bb))
+    # the reveal family: reveal_output and the helpers it calls that place Send annotations and receive the party list
+    fam = [root]
+    for bb, t in root.calls():
+        cb = facts.bodies.get(callee_name(t) or "")
+        if cb is None or cb in fam or cb.kind == "closure" or "/mpc/" not in cb.file or root.is_cleanup(bb):
+            continue
+        has_send = any(rv[0] == "agg" and rv[1].get("adt") == "graphs::NodeAnnotation" and rv[1].get("vn") == "Send"
+                       for _, _, _, rv in cb.assigns())
+        if has_send and any("IOStatus" in cb.local_ty(l) for l in range(1, cb.argc + 1)):
+            fam.append(cb)
+    total = 0
+    per_body = []
+    for b in fam:
+        fl = Flow(facts, b, C02.EXTRA)
+        sites = C02.send_sites(facts, b, fl)
+        total += len(sites)
+        per_body.append((b, fl, sites))
+    rep.floor("C03.R", "Send sites in reveal_output (and the helpers it hands the party list to)", total, 2)
+    for b, fl, sites in per_body:
+        label = "" if b is root else b.id.split("::")[-1] + "|"
+        outp = None
+        for l in range(1, b.argc + 1):
+            if "IOStatus" in b.local_ty(l):
+                outp = l
+        if not rep.anchor("C03.R", "%soutput_parties parameter" % label, outp):
+            continue
+        if b is root:
+            # (1) empty list -> nothing sent (neither here nor through a helper of the family)
+            empties = [bb for bb, t in b.calls() if (callee_name(t) or "").endswith("::is_empty") and not b.is_cleanup(bb)
+                       and any(o[0] == "param" and o[1] == outp for o in fl.origins(t["args"][0], (bb, None)))]
+            if rep.anchor("C03.R", "output_parties.is_empty() test", empties):
+                res = V.executable_under(facts, b, site_values={(b.id, e): ("b", True) for e in empties})
+                live = [bb for bb, _, _ in sites if bb in res.blocks]
+                live += [bb for bb, t in b.calls() if bb in res.blocks and not b.is_cleanup(bb)
+                         and facts.bodies.get(callee_name(t) or "") in fam[1:]]
+                rep.ob("C03.R", "no-party-no-send", not live,
+                       "with an empty output-party list no Send annotation is reachable (the result stays shared)", b.loc(empties[0]))
+        # receivers
+        contains = [bb for bb, t in b.calls() if (callee_name(t) or "").endswith("::contains") and not b.is_cleanup(bb)
+                    and any(o[0] == "param" and o[1] == outp for o in fl.origins(t["args"][0], (bb, None)))]
+        for k, (bb, recv, aggs) in enumerate(sites):
+            agg = aggs[0]
+            rv = b.stmts(agg[1])[agg[2]][2]
+            r_op = rv[2][1]
+            deps = fl.leaf_deps(r_op, (agg[1], agg[2]))
+            pd = {d for d in deps if d[0] != "const"}
+            from_outp = bool(pd) and all(d[0] == "param" and d[1] == outp or d[0] in ("index",) for d in pd)
+            guarded = False
+            if contains:
+                res = V.executable_under(facts, b, site_values={(b.id, c): ("b", False) for c in contains})
+                guarded = bb not in res.blocks
+            if guarded:
+                # the membership test is about the value that becomes the receiver
+                same = False
+                for c in contains:
+                    a = b.term(c)["args"][1]
+                    cd = {d for d in fl.leaf_deps(a, (c, None)) if d[0] not in ("const", "agg")}
+                    if cd and cd == {d for d in pd}:
+                        same = True
+                    # aggregate IOStatus::Party(x): compare x
+                    for o in fl.origins(a, (c, None)):
+                        if o[0] == "agg" and o[3].endswith("IOStatus::Party"):
+                            x = b.stmts(o[1])[o[2]][2][2][0]
+                            xd = {d for d in fl.leaf_deps(x, (o[1], o[2])) if d[0] != "const"}
+                            if xd == pd:
+                                same = True
+                rep.ob("C03.R", "%ssend#%d|guarded-by-membership" % (label, k), same,
+                       "this Send is unreachable unless output_parties.contains(Party(x)) holds, and x is the receiver of the Send"
+                       if same else "the membership test is not about the party that receives the value", b.loc(bb))
+            else:
+                rep.ob("C03.R", "%ssend#%d|receiver-from-output-parties" % (label, k), from_outp,
+                       "the receiver of this Send derives only from output_parties (%s)" % sorted(map(str, pd)) if from_outp else
+                       "a value is sent to a party that does not come from output_parties (%s) and the Send is not guarded by a "
+                       "membership test: a non-recipient learns the output" % sorted(map(str, pd)), b.loc(bb))
